@@ -5,6 +5,7 @@ mod asm;
 mod proj;
 mod streams;
 mod fstreams;
+mod pstreams;
 mod cfile;
 mod witness;
 
